@@ -136,6 +136,7 @@ SCHEMES = {
     "pseudodistance": [[0., 1., 1., 0., 1., 0.], [1., 1., 0., 1., 1., 0.]],
     "generic": [[0., 2., 1., 1., 3., 4.], [1., 1., 0., 2., 2., 5.]],
     "b5-gt-t5": [[0., 1., .5, .5, 1., 2.], [1., 1., 0., 2., 2., 0.]],
+    "unifying-x3": [[0., 3., 3., 0., 3., 3.], [3., 3., 0., 3., 3., 0.]],
 }
 
 DATASETS = {
@@ -152,5 +153,11 @@ DATASETS = {
     "with-empty": [[{1}, {2}], [], [{2}, {3}], [{3}, {1}]],
     "big-bucket": [[{1, 2, 3}, {4}], [{4}, {1}], [{2}, {4}, {3}]],
     "six-mixed": [[{1}, {2, 3}, {4}, {5, 6}], [{6}, {5}, {4}, {3}, {2}, {1}], [{2, 1}, {3, 4}], [{5}, {1}, {6}], [{3}, {6, 2}]],
+    "two-empties": [[{1}, {2}, {3}], [{1}, {2}, {3}], [{1, 2, 3}], [], []],
+    # several incomparable components: the order igraph lists them in is one of many topological orders
+    "branching-components": [[{3}, {1}], [{1}, {2, 5}, {4}]],
+    "five-branching": [[{4}, {5}, {3}, {2}], [{1, 3}, {2, 5}]],
+    "tie3": [[{1, 2}, {3}], [{1, 2}, {3}], [{2}, {1}, {3}]],
+    "single": [[{7}], [{7}]],
     "five-cycle-ties": [[{1}, {2}, {3}, {4}, {5}], [{3, 4}, {5}, {1}, {2}], [{5}, {1, 2, 3}], [{2}, {4}], [{4}, {5}, {3}, {2}, {1}]],
 }
